@@ -26,6 +26,8 @@ THEOREMS = [
     'CpProofs.C18.start_failure_shuts_down',
     'CpProofs.C18.exit_failure_nonzero',
     'CpProofs.C18.sysexit_code_fixup',
+    'CpProofs.C18.publish_state_stable_general',
+    'CpProofs.C18.stop_general',
     'CpProofs.C18.final_state_full_false',
     'CpProofs.C18.all_run_with_failing_log_false',
 ]
@@ -37,8 +39,9 @@ TRUSTED_BASE = [
 ASSUMPTIONS = [
     'listeners are finite scripts: (un)subscribe / publish re-entrantly, then return, raise Exception, '
     'SystemExit(code) or KeyboardInterrupt',
-    'theorems cover scripts without re-entrant actions (the re-entrant part is covered by the '
-    'correspondence stream only)',
+    'ordering / exactly-once / lifecycle theorems cover scripts without re-entrant actions; for arbitrary '
+    're-entrant scripts the state-stability theorems (publish_state_stable_general, stop_general) hold and '
+    'the rest is covered by the correspondence stream only',
 ]
 LEVEL = 'proof'
 TECHNIQUE = ('Lean 4 proof: refinement of Bus.publish/start/stop/exit to a declarative loop spec, by induction over the '
